@@ -181,6 +181,13 @@ func runC06Reads(c *c06Case) (v *vcommon.Violation, nontrivial, inconclusive boo
 			}
 			stale := b.present && b.ts < maxTS
 			mustRepair := stale && (h.role == "primary owner" || h.role == "backup owner")
+			if h.role == "backup owner" && h.m == holders[0].m {
+				// transitional state right after a join: the primary owner is also still listed as a backup
+				// owner. Read-repair addresses a member, not a fragment, and repairs that member's primary
+				// copy; its own leftover backup copy is outside "every reachable stale backup copy" as far
+				// as this check is concerned (labelled, not asserted)
+				mustRepair = false
+			}
 			if mustRepair {
 				if !after.present || after.ts != maxTS || !strings.HasPrefix(string(after.value), fmt.Sprintf("val-ts%d-", maxTS)) {
 					return bad("not-repaired:"+strings.Fields(h.role)[0], "%s: after the read the stale copy on the %s %s is %v, want the newest version (timestamp %d)", desc, h.role, h.m.name, after, maxTS), nontrivial, false
@@ -195,7 +202,9 @@ func runC06Reads(c *c06Case) (v *vcommon.Violation, nontrivial, inconclusive boo
 			if after.present && after.ts > maxTS {
 				return bad("invented-version", "%s: the copy on %s now has timestamp %d", desc, h.m.name, after.ts), nontrivial, false
 			}
-			if b.present && b.ts == maxTS && !after.equal(b) {
+			// a copy that already was (one of) the newest stays a newest one; which of several tied values it
+			// holds afterwards is not stated
+			if b.present && b.ts == maxTS && (!after.present || after.ts != maxTS || !strings.HasPrefix(string(after.value), fmt.Sprintf("val-ts%d-", maxTS))) {
 				return bad("newest-copy-changed", "%s: the newest copy on the %s %s changed from %v to %v", desc, h.role, h.m.name, b, after), nontrivial, false
 			}
 		}
